@@ -42,6 +42,9 @@ pub struct CutFlags {
     pub on_edge: bool,
     pub mismatch: bool,
     pub extreme: bool,
+    /// the extreme value under open bounds did not get its label; asserted by the harness after all
+    /// edge counts (Kani cuts the path at a failed assertion, which would hide E = 1, 2 behind E = 0)
+    pub extreme_unlabelled: bool,
 }
 
 fn sym_value(right: bool, vals: Vals) -> Option<i32> {
@@ -94,10 +97,9 @@ fn judge_cut<const E: usize>(
     if add_bounds {
         if (right && v == i32::MIN) || (!right && v == i32::MAX) {
             fl.extreme = true;
-            assert!(
-                matches!(item, Ok(Some(l)) if *l == below as i32),
-                "open bounds: the extreme value of the type is labelled like any other value"
-            );
+            if !matches!(item, Ok(Some(l)) if *l == below as i32) {
+                fl.extreme_unlabelled = true;
+            }
         } else {
             fl.labelled = true;
             assert!(item.is_ok(), "open bounds: every non-null value gets a label");
